@@ -285,6 +285,10 @@ void XMLString::binToText(  const   long            toFormat
     unsigned long actualVal;
     if (toFormat < 0)
     {
+        // The sign takes one of the maxChars characters
+        if (!maxChars)
+            ThrowXMLwithMemMgr(IllegalArgumentException, XMLExcepts::Str_ZeroSizedTargetBuf, manager);
+
         toFill[0] = '-';
         startInd++;
         // Signed integers can represent one extra negative value
@@ -302,7 +306,7 @@ void XMLString::binToText(  const   long            toFormat
     }
 
     // And now call the unsigned long version
-    binToText(actualVal, &toFill[startInd], maxChars, radix, manager);
+    binToText(actualVal, &toFill[startInd], maxChars - startInd, radix, manager);
 }
 
 void XMLString::binToText(  const   int             toFormat
@@ -1007,6 +1011,10 @@ void XMLString::binToText(  const   long            toFormat
     unsigned long actualVal;
     if (toFormat < 0)
     {
+        // The sign takes one of the maxChars characters
+        if (!maxChars)
+            ThrowXMLwithMemMgr(IllegalArgumentException, XMLExcepts::Str_ZeroSizedTargetBuf, manager);
+
         toFill[0] = chDash;
         startInd++;
         // Signed integers can represent one extra negative value
@@ -1024,7 +1032,7 @@ void XMLString::binToText(  const   long            toFormat
     }
 
     // And now call the unsigned long version
-    binToText(actualVal, &toFill[startInd], maxChars, radix, manager);
+    binToText(actualVal, &toFill[startInd], maxChars - startInd, radix, manager);
 }
 
 void XMLString::binToText(  const   int             toFormat
